@@ -14,7 +14,7 @@ import z3
 from .core import S, Abort
 
 
-class BudgetExceeded(Exception):
+class BudgetExceeded(BaseException):
     pass
 
 
@@ -29,7 +29,11 @@ class Path:
 
 
 class Explorer:
-    def __init__(self, pre=(), max_paths=4000, check_timeout_ms=4000, deadline=None, catch=(Exception,)):
+    def __init__(self, pre=(), max_paths=4000, check_timeout_ms=4000, deadline=None, catch=(Exception,), incremental=False):
+        # incremental: the decisions of the current path live on the solver's push/pop stack (one frame per decision) and the
+        # frames of the prefix shared with the previous path are kept, so a feasibility check only adds one literal
+        self.incremental = incremental
+        self.depth = 0
         self.pre = list(pre)
         self.solver = z3.Solver()
         self.solver.set("timeout", check_timeout_ms)
@@ -70,6 +74,8 @@ class Explorer:
         if self.deadline is not None and time.time() > self.deadline:
             raise BudgetExceeded("exploration deadline")
         i = len(self.trace)
+        if self.incremental:
+            return self._decide_incremental(cond, cid, i)
         if i < len(self.prefix):
             ent = self.prefix[i]
             d = ent[0]
@@ -90,6 +96,59 @@ class Explorer:
         self.known[cid] = d
         return d
 
+    def _check_inc(self):
+        t = time.time()
+        r = self.solver.check(*S.side)
+        self.checks += 1
+        self.check_s += time.time() - t
+        if r == z3.unknown:
+            self.unknown_checks += 1
+            return True
+        return r == z3.sat
+
+    def _decide_incremental(self, cond, cid, i):
+        if i < len(self.prefix):
+            ent = self.prefix[i]
+            d = ent[0]
+            if i >= self.depth:
+                self.solver.push()
+                self.solver.add(cond if d else z3.Not(cond))
+                self.depth += 1
+                if not ent[1]:
+                    ent[1] = True
+                    if not self._check_inc():
+                        self.trace.append((cond, d))
+                        raise Abort()
+        else:
+            assert self.depth == i, (self.depth, i)
+            self.solver.push()
+            self.solver.add(cond)
+            self.depth += 1
+            if self._check_inc():
+                d = True
+                ent = [True, True, True]
+            else:
+                self.solver.pop()
+                self.solver.push()
+                self.solver.add(z3.Not(cond))
+                d = False
+                ent = [False, True, False]
+            self.prefix.append(ent)
+        self.trace.append((cond, d))
+        self.known[cid] = d
+        return d
+
+    def model_of(self, path, extra=()):
+        """a model of preconditions + path condition from the long-lived solver (None if not sat)"""
+        t = time.time()
+        if self.incremental and self.depth == len(path.pc):
+            r = self.solver.check(*(list(path.side) + list(path.uf_axioms) + list(extra)))
+        else:
+            r = self.solver.check(*(path.constraints() + list(extra)))
+        self.checks += 1
+        self.check_s += time.time() - t
+        return self.solver.model() if r == z3.sat else None
+
     def run(self, fn):
         """generator of Path objects (feasibility of the full path condition is left to the caller's queries)"""
         self.prefix = []
@@ -101,6 +160,11 @@ class Explorer:
                     raise BudgetExceeded(f"more than {self.max_paths} paths")
                 self.trace = []
                 self.known = {}
+                if self.incremental:
+                    keep = max(0, len(self.prefix) - 1)
+                    while self.depth > keep:
+                        self.solver.pop()
+                        self.depth -= 1
                 S.new_path()
                 res = exc = None
                 aborted = False
